@@ -433,12 +433,13 @@ def _walk_same_scope(fnode):
 
 
 class Env(object):
-    __slots__ = ("vars", "parent", "genv")
+    __slots__ = ("vars", "parent", "genv", "is_class")
 
     def __init__(self, genv, parent=None):
         self.vars = {}
         self.parent = parent
         self.genv = genv
+        self.is_class = False
 
     def lookup(self, name):
         e = self
@@ -1160,6 +1161,7 @@ class Interp(object):
         ns = {}
         cenv = Env(env.genv, env)
         cenv.vars = ns
+        cenv.is_class = True
         cq = (qual + "." if qual and ":" in qual else (qual + ":" if qual else "")) + s.name
         for _ in self.exec_block(s.body, cenv, cq, None):
             raise Unsupported("yield in class body")
@@ -1181,7 +1183,12 @@ class Interp(object):
             q = qual + ":" + name
         else:
             q = name
-        cenv = env if env.vars is not env.genv else None
+        # closures see enclosing *function* scopes only: class bodies are skipped (Python scoping)
+        cenv = env
+        while cenv is not None and getattr(cenv, "is_class", False):
+            cenv = cenv.parent
+        if cenv is not None and cenv.vars is cenv.genv:
+            cenv = None
         modname = qual.split(":")[0] if qual else ""
         return FuncVal(node, env.genv, cenv, q, modname, defaults, kwdefaults)
 
